@@ -82,6 +82,8 @@ IO = {0x1111: dict(codec=('B', 1), mask={'a': 1, 'b': 2, 'c': 0x80}, mask_size=1
       0x3333: dict(codec=('B', 3), composite=True),
       0x4444: dict(codec=('B', 2), mask={'x': 0x0100, 'y': 0x8000, 'z': 1}),
       0x4545: dict(codec=('B', 1), mask={'pedalA': 0x20, 'pedalB': 0x10, 'pedals': 0x30, 'all': 0xFF}),      # masks sharing bits: the enable mask is the OR, not the sum
+      0x4646: dict(codec=('B', 1), mask={'top': 0xFF, 'low': 1}, mask_size=1),           # a mask equal to the largest value its declared size holds is in the domain
+      0x4747: dict(codec=('B', 2), mask={'w': 0xFFFF, 'v': 0x0100}, mask_size=2),
       0x5555: dict(codec=('B', 1), mask_size=2),
       0x6666: dict(codec=('B', 1), mask={'big': 0x1FF}, mask_size=1),
       0x7777: dict(codec=('raw', 2), mask={'m': 0x00FF00, 'n': 1 << 55, 'o': 1 << 56}),
